@@ -25,7 +25,7 @@ for p in props:
     })
 m = {
     "version": 1,
-    "setup_cmd": "true",
+    "setup_cmd": "cd /verif && /venv/bin/python -m selftest.ref_tables",
     "hooks": {"guard": "PROCESSSCHEDULER_VERIF", "enable": "none needed: the harness interposes at the z3 API seam from its own process (DESIGN.md section 9)",
               "baseline_off_cmd": "cd /repo && /venv/bin/python -m pytest -ra -q -p no:cacheprovider --timeout=900 --continue-on-collection-errors",
               "source_commits": [], "add_only": True},
